@@ -66,6 +66,47 @@ def strip_meta(sc):
     return {k: v for k, v in sc.items() if not k.startswith("_")}
 
 
+def earlier_connections():
+    """connections that ended badly, used as the earlier life of the process (and never of the same WebSocket object) for one
+    scenario in eight: nothing of them may be visible in the connection under test"""
+    from . import scen, ref6455
+    E = ref6455.encode_frame
+    hs = scen.HANDSHAKE
+    bodies = [
+        hs + E(1, b"caf\xc3", fin=0),                                     # EOF inside a fragmented text message, inside a character
+        hs + E(8, ref6455.close_payload(1000, b"\xe2\x82")),             # Close whose reason stops inside a character
+        hs + E(2, b"half-a-frame" * 4)[:9],                               # EOF inside a frame
+        hs + E(1, b"\xf0\x9f"),                                          # text ending inside a character
+        hs + E(2, b"bin", fin=0) + E(9, b"p") + E(3, b""),                # reserved opcode while a message is open
+        hs[:57],                                                          # EOF inside the upgrade reply
+        hs + E(9, b"k" * 125) + E(1, b"m", mask_key=b"\x01\x02\x03\x04"),  # masked frame
+        b"HTTP/1.1 101 X\r\nX-Pad: " + b"p" * 17000,                      # over-long reply block
+    ]
+    out = []
+    for i, b in enumerate(bodies):
+        out.append(dict(cfg=simnet.default_cfg(), steps=[("data", 10, b), ("eof", 10)], app={2: [("text", b"x", True)]} if i % 2 else {},
+                        keys=[b"\x09\x09\x09\x09"] * 4, key16=b"\x07" * 16))
+    return out
+
+
+_EARLIER = None
+
+
+def with_history(p):
+    """deterministically (by the scenario's own fingerprint) give one scenario in eight an earlier connection in the process"""
+    global _EARLIER
+    if "previously" in p or "_ws_object" in p or "steps" not in p or "cfg" not in p:
+        return p
+    h = int(fingerprint(p)[:8], 16)
+    if h % 8:
+        return p
+    if _EARLIER is None:
+        _EARLIER = earlier_connections()
+    q = dict(p)
+    q["previously"] = [_EARLIER[(h // 8) % len(_EARLIER)]]
+    return q
+
+
 def run_family(rep, model, name, scenarios, oracle, project=None, rule="", known=None, impl_opts=None,
                nontrivial=None, sample_every=None):
     """scenarios: list of dicts (keys starting with '_' are intent metadata for the oracle).
@@ -73,7 +114,8 @@ def run_family(rep, model, name, scenarios, oracle, project=None, rule="", known
     project(trace) -> what model and implementation are compared on.
     known(sc, complaint) -> known-finding id or None."""
     project = project or (lambda t: t)
-    plain = [strip_meta(sc) for sc in scenarios]
+    plain = [with_history(strip_meta(sc)) for sc in scenarios]
+    rep.count("earlier_connection_in_process", name, sum(1 for p in plain if "previously" in p))
     impl = run_impl_many(plain, impl_opts)
     reqs = [simnet.to_sx(sc) for sc in plain] if model is not None else []
     mod = model.run(reqs) if model is not None else [None] * len(plain)
